@@ -7,8 +7,11 @@ LEVEL = "model_checking"
 INV = ["FreshMeansComplete", "PendNeverAhead", "LastAnswerOK", "LoopPendOK"]
 
 
-def hist(ctx, mode, maxlen, simulate=None, seed=None, workers=8):
-    c = vlib.cfg(constants={"Mode": '"%s"' % mode, "MaxLen": maxlen, "AsImplemented": False}, invariants=INV)
+ALL = {'"S1"', '"S2"', '"S3"', '"SF"'}
+
+
+def hist(ctx, mode, maxlen, simulate=None, seed=None, workers=8, catalog=None):
+    c = vlib.cfg(constants={"Mode": '"%s"' % mode, "MaxLen": maxlen, "AsImplemented": False, "Catalog": catalog or ALL}, invariants=INV)
     if simulate:
         r = ctx.tlc("IndexLifecycle", c, workers=1, simulate="num=%d" % simulate, depth=maxlen + 2, seed=seed)
     else:
@@ -56,12 +59,15 @@ def run(ctx):
     # vacuity guard: on the literal transcription of the original (defective) implementation TLC must
     # find a history that violates the invariants
     for mode, ln in (("eq", 2), ("index", 3), ("loop", 3)):
-        c = vlib.cfg(constants={"Mode": '"%s"' % mode, "MaxLen": ln, "AsImplemented": True}, invariants=INV)
+        c = vlib.cfg(constants={"Mode": '"%s"' % mode, "MaxLen": ln, "AsImplemented": True, "Catalog": ALL}, invariants=INV)
         r = ctx.tlc("IndexLifecycle", c, workers=2, allow_violation=True, count=False)
         if r.ok:
             raise vlib.Infra("IndexLifecycle invariants accept the AsImplemented variant in mode %s (vacuous model)" % mode)
     hs = []
-    hs += hist(ctx, "index", 4 if q else 5)
+    # exhaustive over a seed-chosen catalogue of two shapes (one of them may be the edgeless full polygon),
+    # random walks over the whole catalogue
+    cat = set(rnd.sample(['"S1"', '"S2"', '"S3"'], 1 if q else 2)) | {rnd.choice(['"SF"', '"S2"', '"S1"'])}
+    hs += hist(ctx, "index", 4 if q else 5, catalog=cat)
     hs += hist(ctx, "eq", 2 if q else 3)
     hs += hist(ctx, "loop", 3 if q else 4)
     for mode, ln, n in [("index", 9, 150 if q else 1500), ("eq", 6, 150 if q else 1500), ("loop", 8, 100 if q else 800)]:
